@@ -608,8 +608,10 @@ where
                         inner,
                         link_tracker,
                     } = projection(context);
-                    link_tracker.borrow_mut().remove_link(&link_key);
+                    // A link that was removed from the lane (remove_downlink) is not reinstated.
+                    let was_registered = link_tracker.borrow_mut().remove_link(&link_key);
                     match response {
+                        LinkClosedResponse::Retry if !was_registered => break StepResult::done(()),
                         LinkClosedResponse::Abandon => break StepResult::done(()),
                         LinkClosedResponse::Delete => {
                             break if keys.is_empty() {
